@@ -213,6 +213,18 @@ def execute(case, ctx):
         old_cfg['instructions'] = {'oldop': {'bytecode': {'value': 1, 'size': 8}}}
         old_cfg['general']['registers'] = ['oldreg']
         old_cfg.pop('macros', None)
+        if case['salt'] % 2 == 0:
+            # ... or from nearly the same vocabulary: one mnemonic had another name of the same length, so that every
+            # generated file has the size it had before
+            old_cfg = copy.deepcopy(cfg)
+            mn0 = sorted(cfg['instructions'])[case['salt'] // 2 % len(cfg['instructions'])]
+            alias = mn0[:-1] + ('q' if mn0[-1].lower() != 'q' else 'z')
+            taken = {w.lower() for w in list(cfg['instructions']) + list(cfg.get('macros') or {}) + list(cfg['general'].get('registers') or [])}
+            if alias.lower() not in taken and alias.lower() not in {k.lower() for k in R.KEYWORDS}:
+                old_cfg['instructions'] = {(alias if k == mn0 else k): v for k, v in cfg['instructions'].items()}
+                for variants in (old_cfg.get('macros') or {}).values():
+                    for v in variants:
+                        v['instructions'] = [re.sub(r'^' + re.escape(mn0) + r'\b', alias, t) for t in v.get('instructions', [])]
         _, old_text = isagen.dump_isa(old_cfg, 'yaml')
         r0 = runner.run_forked(['generate-extension', 'vscode'] + ['-v'] * case.get('verbose', 0) + ['-c', fname, '-d', 'vs'], {fname: old_text}, crosscheck=False)
         evals += 1
